@@ -301,6 +301,13 @@ func (fv *FnVerifier) frameTargetOf(ce *CEnv, e Expr) []frameTarget {
 		case "big":
 			fv.arrSort["big"] = "(Array Int Int)"
 			return []frameTarget{{key: "big", ref: v.S}}
+		case "allelems":
+			// every backing array of this element type may change (ghost-cell families keyed by many references)
+			sl, ok := v.T.Underlying().(*types.Slice)
+			if !ok {
+				unsupported("assigns allelems(): slice expected")
+			}
+			return []frameTarget{{key: fv.elemsKey(sl.Elem()), ref: "(sbase " + v.S + ")", whole: true}}
 		case "listof":
 			// the links and length of container/list l (element Values are ordinary fields: Element.Value)
 			fv.listKeys()
@@ -359,6 +366,9 @@ func (fv *FnVerifier) frameCheckKey(st *State, key, ref string, pos token.Pos, w
 	alts := []string{"(>= " + ref + " alloc0)"}
 	for _, t := range fv.myTargets() {
 		if t.key == key {
+			if t.whole && !strings.HasPrefix(key, "list.") {
+				return // the whole family may be written
+			}
 			alts = append(alts, "(= "+ref+" "+t.ref+")")
 		}
 	}
@@ -473,6 +483,18 @@ func (fv *FnVerifier) callWrites(c *ssa.CallCommon) (keys []string, all bool) {
 	}
 	fn := c.StaticCallee()
 	if fn == nil {
+		// call through a func-typed struct field with a contract that writes nothing
+		if ld, ok := c.Value.(*ssa.UnOp); ok {
+			if fa, ok := ld.X.(*ssa.FieldAddr); ok {
+				pt := fa.X.Type().Underlying().(*types.Pointer).Elem()
+				if n, ok := pt.(*types.Named); ok && n.Obj().Pkg() != nil {
+					stt := pt.Underlying().(*types.Struct)
+					if fc := fv.eng.cs.Funcs[n.Obj().Pkg().Path()+"#"+n.Obj().Name()+"."+stt.Field(fa.Field).Name()]; fc != nil && fc.AssignsOK && len(fc.Assigns) == 0 {
+						return nil, false
+					}
+				}
+			}
+		}
 		return nil, true
 	}
 	name := calleeName(fn)
@@ -606,7 +628,23 @@ func (fv *FnVerifier) execCallCommon(c *ssa.CallCommon, instr *ssa.Call, st *Sta
 	}
 	fn := c.StaticCallee()
 	if fn == nil {
+		// deferred / direct call of a closure created in this function: inline simple bodies
+		if mc, ok := c.Value.(*ssa.MakeClosure); ok {
+			if r, done := fv.inlineClosure(mc, c, st, pos); done {
+				return r
+			}
+		}
+		// call through a func-typed struct field: contract written as a method contract `func (x *T) field(...)`
+		if fc, recv := fv.funcFieldContract(c, st); fc != nil {
+			args := []Val{recv}
+			for _, a := range c.Args {
+				args = append(args, fv.value(a, st))
+			}
+			fv.note("assumption about the function value stored in field " + fc.Key + ": it satisfies the contract written for it")
+			return fv.applyContract(fc, nil, c.Signature(), args, st, pos, name, recv.T)
+		}
 		fv.note("havoc: dynamic call at " + fv.posString(pos))
+		fv.frameUnknownCall(pos, "dynamic call")
 		fv.havocAll(st)
 		return freshResult()
 	}
